@@ -116,6 +116,18 @@ int main(int argc, char** argv) {
         if (check_call(what, s2, A, nev, rules[ri], r2, tol)) bad |= 4;
       } catch (const EigenAssert& e) { printf("seed %d rule %d: Eigen assertion %s\n", seed, ri, e.what()); bad |= 4; }
     }
+    // indefinite matrices whose positive and negative eigenvalues interleave in magnitude: under the Magn rules the sort permutation of the Ritz pairs has
+    // cycles longer than 2 (value i must still belong to vector i)
+    for (int seed = 1; seed <= 6 && !(bad & 4); seed++) for (int ri = 2; ri < 4 && !(bad & 4); ri++) {
+      const int n = 50 + 10 * seed, nev = 3 + seed % 3; const double tol = 1e-8;
+      std::srand(seed + 50); Mat A = Mat::Random(n, n) * 0.02; A = (A + A.transpose()).eval();
+      for (int i = 0; i < n; i++) A(i, i) = ((i % 3 == 1) ? -1.0 : 1.0) * (i + 1 + 0.3 * (i % 2));
+      Op op(A);
+      try { Solver s(op, nev); long r = s.compute(rules[ri], 400, tol);
+        char what[160]; snprintf(what, sizeof what, "indefinite seed %d n=%d nev=%d rule %d", seed, n, nev, (int)rules[ri]);
+        if (check_call(what, s, A, nev, rules[ri], r, tol)) bad |= 4;
+      } catch (const EigenAssert& e) { printf("indefinite seed %d: Eigen assertion %s\n", seed, e.what()); bad |= 4; }
+    }
     // small restart window: the search space is restarted often (restart path + cached products)
     for (int seed = 1; seed <= 6 && !(bad & 4); seed++) {
       const int n = 60, nev = 2; const double tol = 1e-8; Mat A = dominant(n, seed + 20, 0.05); Op op(A);
